@@ -89,8 +89,28 @@ def layout_tensor(vs, rng, dtype):
     return np.ascontiguousarray(a.T).reshape(D, B, 1), -3
 
 
+def scripts():
+    """Deterministic scenarios mixed into the random ones: accumulate, save, accumulate more, save again to the
+    same path (same key / other key / no key, both overwrite settings), then load."""
+    out = []
+    for (pn, kind, fn) in PATHS:
+        keys = ["", "k"] if kind == "npz" else [""]
+        for k1 in keys:
+            for k2 in keys:
+                for ow1 in (False, True):
+                    for ow2 in (False, True):
+                        out.append([("acct", 0), ("save", 0, (pn, kind, fn), k1, ow1), ("accv", 0), ("save", 0, (pn, kind, fn), k2, ow2),
+                                    ("load", 1, (pn, kind, fn), k2), ("accv", 1), ("save", 1, (pn, kind, fn), k1, ow2), ("load", 2, (pn, kind, fn), k1)])
+                        if kind != "npz":
+                            break
+                    if kind != "npz":
+                        break
+    return out
+
+
 def drive(run, tier, rng, focus):
     """Random call sequences; focus 'acc' (C16) or 'file' (C17)."""
+    scripted = scripts() if focus == "file" else []
     nprng = np.random.RandomState(rng.randint(0, 2 ** 31 - 1))
     ntr = (300 if tier == "quick" else 2500)
     traces = []
@@ -107,6 +127,9 @@ def drive(run, tier, rng, focus):
             events = []
             D0 = rng.choice([1, 2, 2, 3])
             nsteps = rng.randint(2, 7)
+            script = scripted[tid - 1] if tid <= len(scripted) else None
+            if script is not None:
+                nsteps = len(script)
             for step in range(nsteps):
                 r = rng.random()
                 if focus == "acc":
@@ -114,8 +137,12 @@ def drive(run, tier, rng, focus):
                 else:
                     op = "accv" if r < 0.2 else "acct" if r < 0.3 else "save" if r < 0.75 else "load"
                 i = rng.randrange(3)
+                forced = None
+                if script is not None:
+                    forced = script[step]
+                    op, i = forced[0], forced[1]
                 ev = {"op": op, "err": ""}
-                D = D0 if rng.random() < 0.9 else rng.choice([1, 2, 3])
+                D = D0 if (rng.random() < 0.9 or script is not None) else rng.choice([1, 2, 3])
                 dtype = rng.choice([np.float64, np.float32, np.int32])
                 with warnings.catch_warnings():
                     warnings.simplefilter("ignore")
@@ -138,6 +165,8 @@ def drive(run, tier, rng, focus):
                             pn, kind, fn = rng.choice(PATHS)
                             key = rng.choice(["", "", "k", "arr_1"]) if kind == "npz" else ""
                             ow = rng.random() < 0.5
+                            if forced is not None:
+                                (pn, kind, fn), key, ow = forced[2], forced[3], forced[4]
                             comp = rng.random() < 0.3
                             ev.update(i=i + 1, p={"name": pn, "kind": kind}, key=key, ow=ow, compress=comp)
                             kw = {}
@@ -154,7 +183,18 @@ def drive(run, tier, rng, focus):
                             pn, kind, fn = rng.choice(cands)
                             key = ""
                             kw = {}
-                            if kind == "npz":
+                            if forced is not None:
+                                pn, kind, fn = forced[2]
+                                if not os.path.exists(os.path.join(d, fn)):
+                                    continue
+                            if forced is not None and kind == "npz":
+                                keys = [e["key"] for e in inspect_file(os.path.join(d, fn), kind).get("entries", [])]
+                                key = forced[3]
+                                if (key or "arr_0") not in keys:
+                                    continue
+                                if key:
+                                    kw["key"] = key
+                            elif kind == "npz":
                                 keys = [e["key"] for e in inspect_file(os.path.join(d, fn), kind).get("entries", [])]
                                 if "arr_0" in keys and rng.random() < 0.5:
                                     key = ""
